@@ -316,7 +316,9 @@ def realproc_job(job):
         rc1, par, err1 = cli_run(root, argv, job["ncpu"], 0, threshold=1)
         agg.notes["realproc_runs"] += 2
         if rc0 != 0 or rc1 != 0:
-            agg.harness_errors.append("real-process cross-check failed to run: rc %d/%d %s %s" % (rc0, rc1, err0[-300:], err1[-300:]))
+            # OS-level trouble (fork failure under load, time limit): no evidence either way, not a verdict
+            agg.notes["realproc_could_not_run"] += 1
+            agg.notes["realproc_could_not_run: rc %r/%r %s" % (rc0, rc1, (err1 or err0)[-120:].replace("\n", " "))] += 1
         else:
             agg.notes["realproc_agrees_with_sequential" if seq == par else "realproc_DISAGREES"] += 1
             if seq != par:
